@@ -275,6 +275,11 @@ pub(crate) fn as_varint(value: i32) -> Vec<u8> {
 
 pub(crate) fn get_string<B: ByteOrder>(buffer: &mut Buffer<B>) -> GDResult<String> {
     let length = get_varint(buffer)? as usize;
+    // The length comes from the packet (and may be a negative VarInt), check it
+    // against what is left before using it to allocate
+    if length > buffer.remaining_length() {
+        return Err(PacketBad.context("String length exceeds the remaining data"));
+    }
     let mut text = Vec::with_capacity(length);
 
     for _ in 0 .. length {
